@@ -1,4 +1,5 @@
 """C02 - Bash target preserves function-call semantics and variable isolation."""
+import corpus
 import progflow
 
 RULE = ("direction A: TLC enumerates spec/FamC02.tla: every legal assignment of 3 (thorough: 4) names to the six roles "
@@ -17,5 +18,6 @@ def run(ctx):
     failures = progflow.judge(ctx, fam, "fam")
     n = 150 if ctx.tier == "quick" else 2500
     failures += progflow.judge(ctx, progflow.generate(ctx, "funcs", n), "gen")
+    failures += corpus.judge(ctx, "C02")
     progflow.report(ctx, failures)
     return ctx.finish(rule=RULE, assumptions=ASSUME)
